@@ -234,8 +234,15 @@ def check(ctx):
                         'header is set at construction only' if ok else 'the header is written outside __init__',
                         node=n)
     indent = tb.methods.get('indent')
+    sem_hdr = _header_by_interpretation(ctx, tb, indent) if indent is not None else None
     if indent is None:
         run.error('C18.header', tb.module.name, 'TextBlock', 'indent', 'TextBlock.indent vanished')
+    elif sem_hdr is not None:
+        n_h, bad_h = sem_hdr
+        for k_ in range(3):         # (as many instances as the shape form: write set, lines fed, result)
+            run.add('C18.header', indent.module.name, indent.qualname, ('header kept', 'content lines shifted by the indenter', 'block handed back')[k_],
+                    not bad_h, f'indent() interpreted on {n_h} blocks with and without a header: the header lines stay as they are, the content lines '
+                    f'are exactly Indentizer.to_list of the content lines, the block itself is handed back' if not bad_h else '; '.join(bad_h[:2]))
     else:
         paths = set(mut.mut_self.get(indent.fq, {}))
         bad = [p for p in paths if p and p[0] not in ('lines', '_lines', '_indentizer')]
@@ -251,6 +258,49 @@ def check(ctx):
                     'only the content lines are indented' if ok else
                     f'indent() feeds `{ast.unparse(c.args[0]) if c.args else ""}` to the indentizer', node=c)
     run.floor('C18.header', 3)
+
+
+def _header_by_interpretation(ctx, tb: ClassInfo, indent: FuncInfo):
+    """TextBlock(content, header).indent() interpreted (E7): afterwards the rendered text starts with the header lines exactly as
+    given, followed by what the block's indenter makes of the content lines (Indentizer.to_list, decided by C18.map); a second
+    indent() shifts the content once more and still not the header.  (blocks tried, disagreements) or None when not
+    interpretable."""
+    from ..scenario import Interp, Obj, Raised, Undecided
+    prog = ctx.prog
+    ind = prog.cls('text_gen', 'Indentizer')
+    to_list = prog.lookup_method(ind, 'to_list') if ind is not None else None
+    to_str = prog.lookup_method(tb, '__str__')
+    if to_list is None or to_str is None:
+        return None
+    bad: List[str] = []
+    n = 0
+    try:
+        for header in (None, ['H1', '  H2', ''], 'one'):
+            for content in (['a', '', '  b'], [], ['x']):
+                it = Interp(prog)
+                n += 1
+                try:
+                    b = it.construct(tb, [list(content)], {} if header is None else {'header': header})
+                    want = list(content)
+                    for round_ in (1, 2):
+                        res = it.call_function(indent, [], {}, self_val=b)
+                        want = list(it.call_function(to_list, [list(want)], {}, self_val=it.construct(ind, [], {})))
+                        got_lines = list(it.getattr(b, 'lines', indent, 0))
+                        text = it.call_function(to_str, [], {}, self_val=b)
+                        hl = ([] if header is None else [header] if isinstance(header, str) else list(header))
+                        exp_text = ''.join(x + '\n' for x in hl + want)
+                        if res is not b:
+                            bad.append('indent() does not hand back the block itself')
+                        if got_lines != want:
+                            bad.append(f'a block of {content!r} (header {header!r}) indented {round_}x holds {got_lines!r}, expected {want!r}')
+                        elif text != exp_text:
+                            bad.append(f'a block of {content!r} with the header {header!r} indented {round_}x renders as {text!r}, expected {exp_text!r} '
+                                       f'(the header is never indented)')
+                except Raised as exc:
+                    bad.append(f'indent() of a block of {content!r} (header {header!r}) raises {exc.name.split(".")[-1]}')
+    except Undecided:
+        return None
+    return n, bad
 
 
 def _long_sequences(ind: ClassInfo) -> List[List[str]]:
